@@ -482,9 +482,11 @@ def run(pid, P, t0, tmpdir):
     # 3. violation pipeline: gate, minimise, replay file
     all_cands.sort(key=lambda c: (c["engine"]["id"], c["run"]))
     seen_classes = set()
+    processed = 0
     for c in all_cands:
-        if len(violations) >= 3:
+        if len(violations) >= 3 or processed >= 4:
             break
+        processed += 1
         e = c["engine"]
         exe = exes[e["id"]]
         text = c["plan"] or gen_plan(exe, seed, c["run"], tier)
@@ -516,7 +518,8 @@ def run(pid, P, t0, tmpdir):
         if cls in seen_classes:
             continue
         seen_classes.add(cls)
-        sh = Shrinker(exe, cls, tmpdir)
+        # a hanging candidate costs the whole watchdog time per replay: shrink it only a little
+        sh = Shrinker(exe, cls, tmpdir, budget_s=120, max_runs=10) if cls == "hang" else Shrinker(exe, cls, tmpdir)
         small, nb, na = sh.shrink(text)
         small = "\n".join(l for l in small.splitlines() if not l.startswith("expect")) + "\n"
         os.makedirs(os.path.join(OUT, "replays"), exist_ok=True)
